@@ -14,7 +14,9 @@ RULE = (
     "instrumentation append start/finish events with a logical clock to a thread-safe log; offline, "
     "for every pair of top-level keys i<j the first event under j must come after the last event "
     "under i, every top-level field must have run, and data (key order) and error paths must equal "
-    "the reference executor. Non-trivial = distinct (mutation, configuration, schedule) with >= 2 "
+    "the reference executor. "
+    "Type resolvers raise the resolver error for half of the abstract objects in these worlds.  "
+    "Non-trivial = distinct (mutation, configuration, schedule) with >= 2 "
     "top-level fields and >= 1 deferred resolver."
 )
 ASSUMPTIONS = ["events are ordered by a logical clock taken under a lock at the resolver / hook boundary"]
